@@ -633,22 +633,17 @@ func (m *Manager) loadContainer(
 		currContainer.rmLock.Unlock()
 
 		if removed {
-			// if current container marked as removed check if concurrent connection has created new entry with same id
-			// and reject current if so
-			if _, present = m.sessions.LoadOrStore(params.ID, newContainer); present {
-				err = mqttp.CodeRefusedIdentifierRejected
-				if params.Version >= mqttp.ProtocolV50 {
-					err = mqttp.CodeInvalidClientID
-				}
-				return
-			}
+			// the container has left the map (its session ended or expired) while this connection was
+			// waiting for it. Nothing of it is used: let go of it, so that whoever else waits for it
+			// comes here as well, and start over with what the map holds now
+			currContainer.release()
 
-			m.sessionsCount.Add(1)
-		} else {
-			newContainer = currContainer.swap(newContainer)
-			newContainer.removed = false
-			newContainer.setRemovable(true)
+			return m.loadContainer(cn, params, acl)
 		}
+
+		newContainer = currContainer.swap(newContainer)
+		newContainer.removed = false
+		newContainer.setRemovable(true)
 	} else {
 		m.sessionsCount.Add(1)
 	}
